@@ -2120,9 +2120,17 @@ impl<'store> AnnotationStore {
                                             }
                                         }
                                         QueryResultItem::TextResource(resource) => {
-                                            selectors.push(SelectorBuilder::ResourceSelector(
-                                                BuildItem::Handle(resource.handle()),
-                                            ))
+                                            if let Some(offset) = offset {
+                                                //(an offset on a resource selects that part of its text)
+                                                selectors.push(SelectorBuilder::TextSelector(
+                                                    BuildItem::Handle(resource.handle()),
+                                                    offset.clone(),
+                                                ))
+                                            } else {
+                                                selectors.push(SelectorBuilder::ResourceSelector(
+                                                    BuildItem::Handle(resource.handle()),
+                                                ))
+                                            }
                                         }
                                         QueryResultItem::AnnotationDataSet(dataset) => selectors
                                             .push(SelectorBuilder::DataSetSelector(
